@@ -11,7 +11,7 @@ LEVEL = "exploration"
 RULE = ("(1) ovnievents output equals doc/user/emulation/events.md (build date line excepted); (2) every listed "
         "event of the 8 models is accepted by ovniemu -l inside a minimal legal context (recipe) with a payload "
         "of the declared shape, and ovnidump prints its description with %{arg}/%fmt{arg} replaced by generated "
-        "argument values, computed by an independent formatter of the template language, one event at a time and in generated sequences of listed events of all models over 1-3 streams (neighbouring events sharing category/value characters); task-model events are also probed from cooling and warming threads, kernel events from paused ones; (3) every unlisted "
+        "argument values, computed by an independent formatter of the template language, one event at a time and in generated sequences of listed events of all models over 1-3 streams (neighbouring events sharing category/value characters); task-model events are also probed from cooling and warming threads, kernel events from paused ones; the contexts use three CPU numberings (index = physical id, shifted, crossed), bystander threads that do not require the model, and every legal use repeated 130 (thorough: 1100) times when the reference model accepts the repetition; (3) every unlisted "
         "three-character code over the 95 printable characters (8 x 95 x 95 codes, exhaustive; each without payload and with the well-formed payload and context of every listed event of the same category) is rejected, "
         "apart from OB? / OU? (value byte ignored) and the legacy code 6TC.  Non-trivial = listed event with "
         ">= 1 argument or unlisted code in an existing category; distinct = (model, code).")
